@@ -243,8 +243,8 @@ def minimize(
     x0 = _ravel(x0)  # if x0 is a BlockArray it will become a jax array here
 
     # Run the SciPy minimizer
-    if method in (
-        "CG, BFGS, Newton-CG, L-BFGS-B, TNC, SLSQP, dogleg, trust-ncg, trust-krylov, "
+    if isinstance(method, str) and method.lower() in (
+        "cg, bfgs, newton-cg, l-bfgs-b, tnc, slsqp, dogleg, trust-ncg, trust-krylov, "
         "trust-exact, trust-constr"
     ).split(
         ", "
